@@ -50,6 +50,10 @@ CLAIMS = {
          "Proved (model of the allocator scan, C04): a request is refused only when fewer blocks are free than asked, and a refusal leaves the bitmap untouched. Decided per explored history: real exhaustion (volume pre-filled leaving 0..5 blocks, then block-hungry operations at several alignments incl. the 72-block extension boundary and a nearly full cache block) and forced exhaustion (request j = 1..4 of a call and all later ones refused); after each episode the result is compared with the reference model replayed with the accepted byte count, bystander files are read back, the extracted decoder judges structure and exact free-space accounting before/after/after remount, and the freed space is filled again to the same capacity.",
          "Per explored history; a call may fail for lack of space only inside the marked window. Filler files are judged by the decoder but not replayed in the model.",
          "exhaustion enumeration judged by Coq reference model and decoder + Coq proof of allocator refusal", "DESIGN.md section 5 C08"),
+ "C14": ("exploration",
+         "Proved (regenerated arithmetic): the number of bitmap pages is ceil((n-2)/4064) and covers exactly blocks 2..n-1; device classification by size; floppy and partition block ranges, and that mount recomputes the range used at creation. Decided per geometry (not a theorem): the whole round trip - format, close, mount - for DD/HD floppies x 8 flavour bytes, hardfile sizes around every multiple of 4064 (+-3), odd and even, around 25/26 bitmap pages (thorough: every size 3521..12300 and windows up to 30 and beyond 152 pages), RDB tables with 1..4 partitions of random geometry, volume-name lengths 0..40: name, flavour, range, empty root (hash table and cache listing), free count = size - boot - root - pages - extension blocks - cache block, and the raw image judged by the extracted decoder.",
+         "Round trip: enumeration over geometries with the Coq decoder as judge; closed-form theorems for the arithmetic only. adfCreateVol/adfWriteNewBitmap themselves are not modelled.",
+         "geometry enumeration judged by the Coq decoder + Coq proof of regenerated size arithmetic", "DESIGN.md section 5 C14"),
 }
 
 def main():
